@@ -1,10 +1,71 @@
 // Emits the #[path]-include of the real CLI entry file from $COPIA_REPO (default /repo),
 // so the same harness can be pointed at a scratch copy for sensitivity experiments.
+//
+// The CLI sources are compiled from a line-for-line copy under $OUT_DIR in which the inherent
+// file-system METHODS of `std::path::Path` (`p.exists()`, `p.is_dir()`, `p.metadata()`,
+// `p.canonicalize()`, ...) are renamed to `sim_<name>` — resolved by the extension traits of
+// `copia_simworld::ext` to the simulated file system. (The module-level alias seam covers
+// `std::fs::…` / `tokio::fs::…` functions; a method on a real `Path` would otherwise ask the
+// real kernel and make such code silently inert under simulation.) Nothing else is changed and
+// line numbers are preserved.
 use std::io::Write;
+use std::path::Path;
+
+const METHODS: [&str; 10] = [
+    "exists", "try_exists", "is_file", "is_dir", "is_symlink", "metadata", "symlink_metadata", "canonicalize", "read_dir", "read_link",
+];
+
+fn transform(src: &str) -> String {
+    let mut s = src.to_string();
+    for m in METHODS {
+        s = s.replace(&format!(".{m}()"), &format!(".sim_{m}()"));
+    }
+    // bring the extension traits into scope next to the seam's alias line (same line: numbering kept)
+    let marker = "use copia_simworld::shim::{";
+    let glob = " #[allow(unused_imports)] use copia_simworld::ext::*;";
+    let mut out = String::with_capacity(s.len() + 128);
+    let mut done = false;
+    for line in s.split_inclusive('\n') {
+        if !done && line.contains(marker) && line.trim_end().ends_with(';') {
+            let body = line.trim_end_matches('\n');
+            out.push_str(body);
+            out.push_str(glob);
+            out.push('\n');
+            done = true;
+        } else {
+            out.push_str(line);
+        }
+    }
+    if !done {
+        println!("cargo:warning=a CLI source file has no seam alias line: Path methods in it are not simulated");
+    }
+    out
+}
+
+fn copy_tree(from: &Path, to: &Path) {
+    std::fs::create_dir_all(to).unwrap();
+    for e in std::fs::read_dir(from).unwrap() {
+        let e = e.unwrap();
+        let p = e.path();
+        let t = to.join(e.file_name());
+        if p.is_dir() {
+            copy_tree(&p, &t);
+        } else if p.extension().map_or(false, |x| x == "rs") {
+            let src = std::fs::read_to_string(&p).unwrap();
+            std::fs::write(&t, transform(&src)).unwrap();
+        } else {
+            std::fs::copy(&p, &t).unwrap();
+        }
+    }
+}
+
 fn main() {
     let repo = std::env::var("COPIA_REPO").unwrap_or_else(|_| "/repo".to_string());
     let out = std::env::var("OUT_DIR").unwrap();
-    let main_rs = format!("{repo}/src/bin/copia/main.rs");
+    let copy = format!("{out}/copia_src");
+    let _ = std::fs::remove_dir_all(&copy);
+    copy_tree(Path::new(&format!("{repo}/src/bin/copia")), Path::new(&copy));
+    let main_rs = format!("{copy}/main.rs");
     let mut f = std::fs::File::create(format!("{out}/copia_main_include.rs")).unwrap();
     writeln!(
         f,
@@ -14,5 +75,6 @@ fn main() {
     println!("cargo:rerun-if-env-changed=COPIA_REPO");
     println!("cargo:rerun-if-changed={repo}/src/bin/copia");
     println!("cargo:rerun-if-changed={repo}/Cargo.toml");
+    println!("cargo:rerun-if-changed=build.rs");
     println!("cargo:rustc-env=COPIA_REPO_BUILT={repo}");
 }
